@@ -8,7 +8,27 @@ BASELINE = ("cd /repo && env -u ADAPTIX_VERIF /venv/bin/python -m pytest -ra -q 
             "--continue-on-collection-errors")
 
 # property -> (technique, level text, level note, design ref)
-CLAIMED = {}
+_LV = ("Bounded symbolic model checking of the real closures: every obligation is a harness over closures built from /repo's current "
+       "tree; CrossHair executes them with the datum symbolic and z3 decides every branch; CONFIRMED means the path tree was exhausted "
+       "inside the stated bounds, REFUTED means the solver's model replayed natively. Nothing is claimed outside the bounds; "
+       "EXPLORED/ARTEFACT obligations are reported as inconclusive. ")
+_NOTE = ("Trusted: CrossHair 0.0.110's models of builtins (known-unsound float<->int conversions are never relied on: E2 kernels own them), "
+         "z3 5.1, CPython 3.12; the reference oracles in /verif/props (written from the docs); stub children stand for arbitrary "
+         "contract-abiding child loaders (assume-guarantee, DESIGN.md 4.5). Values crossing C boundaries are realised (selector-enumerated).")
+CLAIMED = {
+    "C02": ("CrossHair symbolic execution of the real scalar/container/union loaders vs. a reference written from the docs; z3 path exhaustion",
+            _LV + "C02: scalar loaders x symbolic atoms x root kinds; container/tuple/dict/union combinators with stub children vs. the documented rules.", _NOTE, "DESIGN.md 5/C02"),
+    "C04": ("CrossHair symbolic execution of the real loaders (outcome must be LoadError-only) + native replay; z3 path exhaustion",
+            _LV + "C04: no non-LoadError outcome for any atom kind / wrong container / stub-child outcome in all 6 modes.", _NOTE, "DESIGN.md 5/C04"),
+    "C05": ("CrossHair symbolic execution of real combinators with stub children carrying symbolic relative trails; exact trail/completeness post-conditions",
+            _LV + "C05: ALL = every failing child exactly once at [position]++child trail; FIRST = exactly one; DISABLE = nothing added.", _NOTE, "DESIGN.md 5/C05"),
+    "C06": ("three-way differential of independently built DISABLE/FIRST/ALL closures on the same symbolic input (CrossHair + z3)",
+            _LV + "C06: same acceptance, equal results, corresponding errors across the three debug modes.", _NOTE, "DESIGN.md 5/C06"),
+    "C07": ("pairwise differential strict vs lax closures on the same symbolic input (CrossHair + z3) + strict-origin table",
+            _LV + "C07: strict ok => lax ok with same value; strict accepts only documented origins.", _NOTE, "DESIGN.md 5/C07"),
+    "C20": ("CrossHair symbolic execution of real combinators: deep snapshot of argument, two calls, identity-disjointness of built containers",
+            _LV + "C20: argument untouched, repeatable, fresh containers.", _NOTE, "DESIGN.md 5/C20"),
+}
 
 NOT_APPLICABLE = {
     "C12": "Quantifier is thread schedules at statement granularity; CrossHair executes a single thread (thread-local tracer/state "
